@@ -388,6 +388,38 @@ def _writable_metric(g, P):
     return P
 
 
+def _reads_state(e):
+    return e["op"] in ("fluent", "param", "var") or any(_reads_state(a) for a in e["args"])
+
+
+def _const_atom(e):
+    """a comparison / equality over constants only (it simplifies to true or false)"""
+    if e["op"] in ("le", "lt", "eq") and not _reads_state(e):
+        return True
+    return any(_const_atom(a) for a in e["args"])
+
+
+def _constant_conditions(P):
+    cs = list(P["goals"])
+    for a in P["actions"]:
+        effs = [te["e"] for te in a["effects"]] if a["kind"] == "dur" else a["effects"]
+        cs += a["pre"] + [c["c"] for c in a["conds"]] + [e["c"] for e in effs]
+    cs += [te["e"]["c"] for te in P.get("timed_effects", [])]
+    return any(_const_atom(c) for c in cs)
+
+
+def _gen(g, i):
+    """the writer rejects conditions that simplify to a Boolean constant (outside the PDDL fragment): most of the
+    corpus avoids comparisons of constants (generator restriction); one problem in eight is left as generated"""
+    P = g.problem()
+    if i % 8:
+        for _ in range(6):
+            if not _constant_conditions(P):
+                break
+            P = g.problem()
+    return P
+
+
 def make_corpus(rng, counts):
     """[(slice, P)]; every random choice comes from rng"""
     out = []
@@ -398,19 +430,19 @@ def make_corpus(rng, counts):
     g_tmp = TGen(rng, objfluents=False, bounded=False, bool_expr_assign=False, boolconst=False, undefined=False, invariants=False,
                  intermediate=False, quantifiers=True)
     for i in range(counts["num"]):
-        P = _writable_metric(g_num, g_num.problem())
+        P = _writable_metric(g_num, _gen(g_num, i))
         out.append(("num", adversarial_names(P, rng) if i % 4 else P))
     for i in range(counts["ai"]):
         g = g_cls if i % 2 else g_ai
-        P = _writable_metric(g, g.problem())
+        P = _writable_metric(g, _gen(g, i))
         out.append(("ai", adversarial_names(P, rng, 0.5) if i % 3 == 0 else P))
     for i in range(counts["bnd"]):
-        P = g_bnd.problem()
+        P = _gen(g_bnd, i)
         if not _bounded(P):
             continue
         out.append(("bnd", _writable_metric(g_bnd, P)))
     for i in range(counts["tmp"]):
-        P = g_tmp.problem()
+        P = _gen(g_tmp, i)
         if i % 10:
             P["timed_goals"] = []  # the writer rejects timed goals (kept in a tenth of the slice to exercise the rejection)
         for j, te in enumerate(P["timed_effects"]):
@@ -909,6 +941,7 @@ def selftest(ctx):
         R2 = copy.deepcopy(R)
         rec2["reads"] = [R2]
         rec2["cid"] = len(cases) + 1
+        rec2["job"] = [rec2["cid"]] + list(rec2["job"][1:])
         edit(rec2, R2)
         cases.append((name, expect, rec2))
 
@@ -983,15 +1016,14 @@ def selftest(ctx):
         p["back"][0]["t"] = upj.NV(Fraction(p["back"][0]["t"]["n"], p["back"][0]["t"]["d"]) + Fraction(1, 8))
     case("tt-plan-start-time", "parsed-plan-differs", rec, R, t6)
     ok = True
+    c2 = type(ctx)(ctx.pid, ctx.tier, ctx.seed)
+    c2.work = ctx.sub("cases")
+    judge_records(c2, [rec2 for _, _, rec2 in cases], 2, tag="-cases")
+    ctx.cov["tlc_runs"] += c2.cov["tlc_runs"]
     for name, expect, rec2 in cases:
-        c2 = type(ctx)(ctx.pid, ctx.tier, ctx.seed)
-        c2.work = ctx.sub("case-" + name)
-        judge_records(c2, [rec2], 2, tag="-" + name)
-        clauses = sorted({v.data["clause"] for v in c2.violations})
+        clauses = sorted({v.data["clause"] for v in c2.violations if v.data["job"][0] == rec2["cid"]})
         hit = any(cl.startswith(e) for cl in clauses for e in expect.split("|"))
         print("selftest %-26s expected %-34s got %s" % (name, expect, clauses))
         ok = ok and hit
-        for r in c2.cov["tlc_runs"]:
-            ctx.cov["tlc_runs"].append(r)
     print("selftest: %d clean records accepted, %d corruptions, %s" % (len(clean), len(cases), "all rejected" if ok else "SOME ACCEPTED"))
     return 0 if ok else 2
